@@ -313,10 +313,18 @@ class DirectDriver:
                             'tree': (job.sh.meta if job.sh else {}).get('nc_tree')}
 class _Ign:
     def ignore(self): pass
+class _Other:
+    # anything else of ROOT the job options may instantiate: remembered by name, so that it shows in what the driver was given
+    def __init__(self, n): self.n = n
+    def __call__(self, *a, **k): return _Other(self.n)
+    def __getattr__(self, a): return _Other(self.n + '.' + a)
+class _NS:
+    def __init__(self, prefix, **known): self.__dict__.update(known); self._p = prefix
+    def __getattr__(self, a): return _Other(self._p + a)
 ROOT = types.ModuleType('ROOT')
 ROOT.xAOD = types.SimpleNamespace(Init=lambda *a: _Ign())
-ROOT.SH = types.SimpleNamespace(SampleHandler=SampleHandler, SampleLocal=SampleLocal, readFileList=readFileList)
-ROOT.EL = types.SimpleNamespace(Job=Job, OutputStream=OutputStream, DirectDriver=DirectDriver)
+ROOT.SH = _NS('SH.', SampleHandler=SampleHandler, SampleLocal=SampleLocal, readFileList=readFileList)
+ROOT.EL = _NS('EL.', Job=Job, OutputStream=OutputStream, DirectDriver=DirectDriver)
 sys.modules['ROOT'] = ROOT
 ana = types.ModuleType('AnaAlgorithm'); duc = types.ModuleType('AnaAlgorithm.DualUseConfig')
 class _Alg:
@@ -376,7 +384,7 @@ def eljob_stream(ctx):
                 ctx.violation(key=key, what="the ATLAS job does not run over exactly the files of filelist.txt (in order, with multiplicity): the rows written are not the rows the query denotes on the listed input",
                               case=case, observed=got, how=how)
             elif got.get("dir") != "bogus" or "ANALYSIS" not in got.get("outputs", []) or got.get("tree") != "CollectionTree" or got.get("algs") != ["AnalysisAlg"]:
-                ctx.violation(key=key + ":job", what="the ATLAS job is not submitted to the requested directory with the query algorithm, the CollectionTree input and the ANALYSIS output stream",
+                ctx.violation(key=key + ":job", what="the ATLAS job is not submitted to the requested directory with the query algorithm alone (anything else in the algorithm sequence can veto or alter events), the CollectionTree input and the ANALYSIS output stream",
                               case=case, observed=got, how=how)
 
 
